@@ -320,6 +320,18 @@ example : ∃ evs, otrace 1000 rearm {} {} observedRun = some evs ∧ Sonic.Spec
 completely accepted is not an observed run. -/
 example : otrace 1000 rearm {} {} [.call (.write 1 1 5), .ret, .drain 1] = none := by decide
 
+/-- Why the monitor is told of transport failures (`transportErr`): the model (like `asyncFlush` in stream.go) completes
+the write whose frame the transport refused with an error. A monitor that cannot see the failure rejects that history
+as "write completed with an error on a healthy transport"; told of it, it accepts - and still rejects the same error
+completion when the transport did not fail. -/
+def failedWrite : List OLabel := [.call (.write 1 1 5), .ret, .call .poll, .wrErr, .enter 1 .err, .exit 1, .ret]
+
+example : (otrace 1000 (fun _ => []) {} {} failedWrite).isSome = true := by decide
+example : Sonic.Spec.WsAsync.accepts 1000 [.callWrite 1 1 5, .ret .active, .callPoll, .transportErr,
+    .enter 1 .err none none .active, .exit 1, .ret .active] = true := by decide
+example : Sonic.Spec.WsAsync.accepts 1000 [.callWrite 1 1 5, .ret .active, .callPoll,
+    .enter 1 .err none none .active, .exit 1, .ret .active] = false := by decide
+
 end Refinement
 
 end Sonic.Props.C17
